@@ -420,6 +420,13 @@ let handle (line : string) : string =
        Buffer.add_string b ("TLSCELL " ^ tok (model_outcome domain_of port cell) ^ " spec " ^ tok (spec_outcome cell))
    | "DOMAIN" ->
        let a = next_bytes t in Buffer.add_string b ("DOMAIN " ^ tok_of_bytes (domain_of a))
+   | "OBJ" ->
+       (* OBJ <repaired|legacy> <tlsfail|overlap|failed>: what the callers of send_message end up with in the reconnect
+          scenarios (Model/ClientObj.v), one token per send *)
+       let late = (match next t with "repaired" -> late_ok | "legacy" -> late_d13 | s -> raise (Parse ("obj " ^ s))) in
+       let sched = (match next t with "tlsfail" -> sched_tlsfail | "overlap" -> sched_overlap | "failed" -> sched_failed | s -> raise (Parse ("sched " ^ s))) in
+       Buffer.add_string b "OBJ";
+       List.iter (fun w -> Buffer.add_string b (match w with WGot _ -> " got" | WDropped -> " err" | WPending0 -> " pending")) (send_outcomes late sched)
    | "CL" ->
        let _ = next t in
        let n = next_int t in
